@@ -14,5 +14,8 @@ static void run(vf::Ctx &c) {
   c.stage("oracle");
   c.check(!(plant && a == 2 && b == 1 && d == 3 && dev), "SELF:planted", "planted violation reached");
   if (crash && a == 3 && b == 3 && d == 0 && !dev) abort();
+  // --hang=1: one path never terminates; --slow=1: one path needs ~2 s of CPU (more than --alarm=1 allows at first)
+  if (c.opt().get("hang") == "1" && a == 1 && b == 2 && d == 3 && !dev) { volatile unsigned long x = 0; for (;;) x++; }
+  if (c.opt().get("slow") == "1" && a == 1 && b == 2 && d == 3 && !dev) { volatile unsigned long x = 0; double t0 = vf::real_now(); while (vf::real_now() - t0 < 2.0) x++; }
 }
 VF_MAIN("selftest_seq", "SELF", setup, run)
